@@ -1,15 +1,16 @@
 (* Model_Sha1Ctx: hmac_hash::SHA1 (src/sha1.cpp:34-110): m_h, m_transforms (size_t, wraps),
    m_buffer (a std::vector: live bytes only). *)
-From HV Require Import Base_Bytes Spec_SHA.
+From HV Require Import Base_Bytes Spec_SHA Model_Sha1Transform.
 Local Open Scope N_scope.
 
 Record ctx1 := { s_h : list N; s_transforms : N; s_buf : list N }.
 
 Definition sha1_init (c : ctx1) : ctx1 := {| s_h := IV1; s_transforms := 0; s_buf := [] |}.
 
-(* transform(block): one compression, m_transforms++ *)
+(* transform(block): one compression as the code computes it (Model_Sha1Transform: buffer_to_block, the 80 unrolled
+   macro calls on the circular 16-word block, m_h[k] += a..e), m_transforms++ *)
 Definition sha1_transform (c : ctx1) (blk : list N) : ctx1 :=
-  {| s_h := sha1_compress (s_h c) blk; s_transforms := (s_transforms c + 1) mod 2 ^ 64; s_buf := s_buf c |}.
+  {| s_h := sha1_compress_code (s_h c) blk; s_transforms := (s_transforms c + 1) mod 2 ^ 64; s_buf := s_buf c |}.
 
 Definition sha1_update (c : ctx1) (message : list N) : ctx1 :=
   let length_ := length message in
